@@ -107,13 +107,16 @@ def run(ctx):
     invs = invariants()
     # ---- design level --------------------------------------------------------------------------------------------
     rnd = random.Random(ctx.seed)
-    scale = 0 if q else 1
-    ctx.constants["MCAsyncUtil"] = {"Kinds": KINDS, "Scale": scale, "invariants": len(invs)}
-    r = ctx.mc("util/MCAsyncUtil", cfg(KINDS, scale, printhist=True, invs=invs + ["HistPrinted"] + ([] if q else ["RuleListAgrees", "StepsTotal"])),
-               name="MC async utilities (depth base+%d)" % scale, timeout=6000, coverage=False)
-    hists, n_mc = histories(r, "tlc-mc", rnd, 40 if q else 400)
+    ctx.constants["MCAsyncUtil"] = {"Kinds": KINDS, "Scale": 0 if q else 1, "invariants": len(invs)}
+    if not q:
+        # deeper exhaustive run (no printing: the maximal behaviours of this depth are too many to replay)
+        ctx.mc("util/MCAsyncUtil", cfg(KINDS, 1, invs=invs + ["RuleListAgrees", "StepsTotal"]), name="MC async utilities (depth base+1)",
+               timeout=20000, coverage=False)
+    r = ctx.mc("util/MCAsyncUtil", cfg(KINDS, 0, printhist=True, invs=invs + ["HistPrinted"]),
+               name="MC async utilities (depth base+0, behaviours printed)", timeout=6000, coverage=False)
+    hists, n_mc = histories(r, "tlc-mc", rnd, 40 if q else 100000)
     if not os.environ.get("VERIF_SKIP_MC"):
-        rn = ctx.mc("util/MCAsyncUtil", cfg(["lazy", "auxdict"], 0 if q else 1, spec="SpecDev", invs=invs),
+        rn = ctx.mc("util/MCAsyncUtil", cfg(["lazy", "oneshot", "auxdict"], 0 if q else 1, spec="SpecDev", invs=invs),
                     name="MC necessity: deviations of the code as it is", expect_ok=False, timeout=3000, coverage=False, cont=True)
         if not EXPECTED_DEVIATIONS <= set(rn.violated):
             ctx.report(key="spec:necessity_not_detected",
@@ -148,9 +151,9 @@ def run(ctx):
                         sum(1 for t in traces if t["consts"]["src"] != "scripted"), steps, dict(sorted(per.items()))))
     ctx.trace("util/TraceAsyncUtil", traces, key_of=key_of, what_of=what_of, batch=1500, workers=4, timeout=3000)
     ctx.rule = ("MC: every behaviour of MCAsyncUtil up to the per-kind depth (quick: oneshot 5, lazy 4, obslist 4, stream 4, poll 3, "
-                "gather/dlss 5, race 4, timeout 6, hook 3, until 5, evchain 5, a2d 3, waitdc 4, consumer 1, dictofsets 3, auxdict 3, typedkeys 3; thorough +2) "
+                "gather/dlss 5, race 4, timeout 6, hook 3, until 5, evchain 5, a2d 3, waitdc 4, consumer 1, dictofsets 3, auxdict 3, typedkeys 3; thorough +1) "
                 "with the narrow command alphabets; the necessity run must break the rules of the two listed deviations. "
-                "TRACE: a seeded sample (<= %d per kind) of the maximal behaviours of that exhaustive run, a seeded sample (<= %d per kind) of "
+                "TRACE: a seeded sample (<= %d per kind; thorough: all) of the maximal behaviours of the base-depth exhaustive run, a seeded sample (<= %d per kind) of "
                 "the behaviours printed by TLC -simulate (depth %d, wide alphabets, -seed = --seed), and the scripted histories of the "
                 "driver, replayed on the real classes. Non-trivial: something was delivered, completed or refused (not only pending "
                 "observations)." % (40 if q else 400, 25 if q else 400, depth))
